@@ -8,8 +8,9 @@ HARNESS = os.environ.get("VERIF_HARNESS", os.path.join(VERIF, "harness"))
 BUILD = os.path.join(VERIF, "build")
 TARGET = os.environ.get("VERIF_TARGET", os.path.join(BUILD, "harness-target"))
 TMP = os.path.join(BUILD, "tmp")
-REPLAYS = os.path.join(VERIF, "replays")
-EVIDENCE = os.path.join(VERIF, "evidence")
+# (development only — bin/try_mutant.sh: runs against a mutated scratch copy write their replays and evidence elsewhere)
+REPLAYS = os.environ.get("VERIF_REPLAYS", os.path.join(VERIF, "replays"))
+EVIDENCE = os.environ.get("VERIF_EVIDENCE", os.path.join(VERIF, "evidence"))
 DRIVER = os.path.join(LEAN, ".lake", "build", "bin", "specs_model")
 ALLOWED_AXIOMS = {"propext", "Classical.choice", "Quot.sound"}
 FORBIDDEN = re.compile(r"\bsorry\b|\badmit\b|^\s*axiom\s|native_decide|bv_decide|implemented_by|\bunsafe\s|maxHeartbeats\s+0")
